@@ -32,6 +32,7 @@ def build_graph(nodes, sup, raw, mode="mcs", prune=True, **kw):
 
 
 _JIT_CACHE: dict = {}
+RECORD_UNAVAILABLE = {"n": 0}
 
 
 def init_state(G, gs_init, eps_index: int, record=None, starting_step: int = 0, inputs=None):
@@ -41,7 +42,18 @@ def init_state(G, gs_init, eps_index: int, record=None, starting_step: int = 0, 
     cgs = G.init(jax.random.PRNGKey(0), starting_eps=eps_index, starting_step=starting_step)
     cgs = cgs.replace(rng=gs_init.rng, params=gs_init.params, state=gs_init.state, inputs=inputs if inputs is not None else gs_init.inputs)
     if record:
-        cgs = G.init_record(cgs, **record)
+        # A node that was pruned away completely has no output buffer and Graph.init_record(output=True) raises KeyError for it
+        # (observed on the pinned tree; outside the listed properties, DESIGN 6 D8): ask for its output record per node.
+        rec = dict(record)
+        missing = [n for n in G.nodes if n not in cgs.buffer]
+        if missing and rec.get("output"):
+            rec["output"] = {n: (n not in missing) for n in G.nodes}
+        try:
+            cgs = G.init_record(cgs, **rec)
+        except KeyError:
+            # init_record cannot size the record of a node without any scheduled vertex (num_seqs[name]): compiled recording is
+            # unavailable for this instance (D8, outside the listed properties); the caller goes on without a record.
+            RECORD_UNAVAILABLE["n"] += 1
     return cgs
 
 
